@@ -162,8 +162,17 @@ func (r *sfRun) exec(ev sfEv) []M {
 		th.release <- ev.V
 		ops := []M{{"in": ev, "out": M{"r": "fnDone"}}}
 		if r.window {
-			<-r.yielded
-			th.state = "afterfn"
+			select {
+			case <-r.yielded:
+				th.state = "afterfn"
+			case rt := <-th.ret:
+				// returned without passing the done/remove window the model has here: report what happened
+				th.state = ""
+				ops = append(ops, M{"in": sfEv{Op: "remove", T: ev.T}, "out": M{"r": "ret-without-window", "v": sfEncode(rt.v, rt.err), "n": rt.n}})
+			case <-time.After(5 * time.Second):
+				th.state = ""
+				ops = append(ops, M{"in": sfEv{Op: "remove", T: ev.T}, "out": M{"r": "stuck"}})
+			}
 		} else {
 			rt := <-th.ret
 			th.state = ""
